@@ -3,7 +3,7 @@ plus token-level mutations (the *malformed stream*).  Every choice comes from
 the `random.Random` passed in."""
 import random
 
-from items import (COMMA, JUNK, Attr, Body, Field, Gen, I, Ident, Item, MList, MNameValue,
+from items import (COMMA, JUNK, PA, Attr, Body, Field, Gen, I, Ident, Item, MList, MNameValue,
                    MPathM, P, Param, Variant, metas_body, traits_body)
 
 STD_TRAITS = ['Clone', 'Copy', 'Debug', 'Default', 'Eq', 'Hash', 'Ord', 'PartialEq', 'PartialOrd']
@@ -190,7 +190,7 @@ def gen_item(rng, zeroize_ok=True):
             if t in ZTRAITS and chance(rng, 0.25):
                 root = pick(rng, ['zeroize_', '::zeroize_', 'krate::zeroize', '::zeroize'])
                 kindv = pick(rng, ['path', 'path', 'str'])
-                metas.append(MList(t, [MNameValue('crate', kindv, P(root))]))
+                metas.append(MList(t, [MNameValue('crate', kindv, PA(root, 1) if chance(rng, 0.08) else P(root))]))
             elif chance(rng, 0.01):
                 metas.append(MList(t, [MPathM('foo')]))
             else:
@@ -200,7 +200,8 @@ def gen_item(rng, zeroize_ok=True):
     if chance(rng, 0.05):
         attrs.insert(rng.randrange(len(attrs) + 1),
                      Attr('dw', metas_body([MNameValue('crate', pick(rng, ['path', 'str']),
-                                                       P(pick(rng, ['dw', '::dw::inner', 'derive_where', '::derive_where'])))])))
+                                                       (lambda r: PA(r, 1) if chance(rng, 0.2) else P(r))(
+                                                           pick(rng, ['dw', '::dw::inner', 'derive_where', '::derive_where'])))])))
     # repr
     repr_int = None
     if kind == 'enum':
